@@ -36,6 +36,38 @@ CLAIMS = {
         note="Known finding fault-site=finish (no small safe repair). The flash-level part (SpiFlash faults through "
              "the updater) is exercised by the D5 fault suite when built; the theorem is at the storage-trait level.",
         design_ref="DESIGN.md section 6 (C18)"),
+    "C02": dict(
+        text="recon_sound is proved in Lean for every N, block size, original data, contract-respecting matrix, "
+             "capacity, both store orders and every finite delivery sequence (induction over the sequence with the "
+             "invariant Inv: stored data = originals; stored pivots are echelon rows whose parity blocks are the "
+             "matching XOR-combinations of the unknown originals): every data-store call carries the original block, "
+             "Done implies length N*bs and the store holds exactly the originals, no panic/error in fault-free runs. "
+             "The model is the executable transcription of lib.rs and is compared call by call with the real "
+             "Reconstructor on random and exhaustively enumerated small sessions every run.",
+        note="Trusted: Lean kernel (+propext, Classical.choice, Quot.sound), the correspondence harness (instrumented "
+             "stores, generators), bitvec. Blocks are numbers under XOR in the model (bytes in the code); the driver "
+             "converts.",
+        design_ref="DESIGN.md section 6 (C02)"),
+    "C03": dict(
+        text="Proved in Lean: done_iff_span (from any stage-2 entry state, the last delivery reports Done iff the "
+             "projected rows of the delivered blocks span every unit vector of the unknown space — echelon invariant), "
+             "done_determines (Done implies the received blocks determine the data; corollary of C02), "
+             "done_then_complete + done_sticky (once Done, every call returns Done and the state/log is unchanged), "
+             "refuse_iff + refuse_noop (TooManyMissing exactly when a parity-range block meets more unknowns than the "
+             "capacity, and it changes nothing). Checked against the implementation with an independent GF(2) rank "
+             "oracle, including refusal ladders.",
+        note="Trusted: as C02. 'First block after which...' follows because the theorem quantifies over every sequence "
+             "(hence every prefix).",
+        design_ref="DESIGN.md section 6 (C03)"),
+    "C09": dict(
+        text="contract_log proved in Lean for the same space of runs as C02: each data / parity / matrix index stored at "
+             "most once (all N data indices exactly once by Done), stored rows have their own bit set, no higher bit, "
+             "index below vbits and num_rows, parity block immediately before its row, reads only after the matching "
+             "store. The full call log of every handle_block is compared between model and implementation; the "
+             "harness' stores monitor the contract (incl. buffer lengths, which the model cannot express).",
+        note="Trusted: as C02. Buffer lengths are checked only by the monitors of the harness (blocks are numbers in "
+             "the model). Under storage faults 'at most once' is not claimed (C18).",
+        design_ref="DESIGN.md section 6 (C09)"),
 }
 
 _TODO = "check not built yet in this session (planned in DESIGN.md section 6); not believed to be outside the technique"
